@@ -258,8 +258,10 @@ def orientation_probe(obs, sky, pix, w):
     if wd is None or ht is None:
         return
     a, b = float(wd.to_value(u.deg)), float(ht.to_value(u.deg))
-    if max(a, b) / min(a, b) < 1.6 or max(a, b) > 2.0:
-        return          # nearly round, or so large that the outline is visibly curved in the image
+    if max(a, b) / min(a, b) < 1.6 or max(a, b) / min(a, b) > 8.0 or max(a, b) > 0.1:
+        # nearly round; or a needle / a region of more than a few arcminutes, for which the direction of north changes measurably
+        # from one end to the other (meridians converge: 1.4 deg over a 0.6 deg needle at latitude 80) and the outline is not straight
+        return
     long_pa, short_pa = (sky.angle - 90 * u.deg, sky.angle) if a >= b else (sky.angle, sky.angle - 90 * u.deg)
     p_in = sky.center.directional_offset_by(long_pa, 0.8 * max(a, b) / 2 * u.deg)
     p_out = sky.center.directional_offset_by(short_pa, 1.25 * min(a, b) / 2 * u.deg)
